@@ -13,6 +13,9 @@ mutex and releasing it, where `Condvar::wait` releases it):
 * `push w n picks` / `xpush toks picks` — `push()` by a worker (the first `n` jobs of its deque) / by the owner of
                    the checker (fresh jobs: the initial states)
 * `split w picks`— `split_and_push(&mut local)`
+* `rearrange w l` — no market operation either: the worker reorders its own deque (`l` must be a permutation of it).
+                   With it `work` covers every queue discipline: BFS pops at the back and pushes at the front (`work`
+                   as it stands), DFS pushes at the back, on-demand drains from the front = `work` + `rearrange`.
 * `work w c fresh` — no market operation: the worker consumes `c` jobs from the back of its deque and
                    generates `fresh` new ones (what `check_block` does to `pending`)
 * `drop w`       — `Drop` of a worker's clone: the thread returns or unwinds (panic in model code)
@@ -125,6 +128,7 @@ inductive Step where
   | xpush (toks : List Tok) (picks : List Nat)
   | split (w : Nat) (picks : List Nat)
   | work (w c : Nat) (fresh : List Tok)
+  | rearrange (w : Nat) (l : List Tok)
   | drop (w : Nat)
   | xdrop
   | timeoutFire
@@ -192,6 +196,10 @@ def stepR (s : MState) : Step → Option (MState × Option PopRes)
       some ({ s with locs := s.locs.set w (fresh ++ loc.take (loc.length - c)),
                      consumed := loc.drop (loc.length - c) ++ s.consumed,
                      created := fresh ++ s.created }, none)
+    else none
+  | .rearrange w l =>
+    if s.pcs[w]? = some .running && l.isPerm (s.locs.getD w []) then
+      some ({ s with locs := s.locs.set w l }, none)
     else none
   | .drop w =>
     if s.pcs[w]? = some .running then
